@@ -58,6 +58,47 @@ func scRebuild(p *scionPkt, mod func(s *slayers.SCION, u *slayers.UDP, pld *[]by
 	return append([]byte(nil), buffer.Bytes()...)
 }
 
+// scWithExtensions re-serialises a SCION/UDP packet with a hop-by-hop and/or an end-to-end
+// extension header (one option each, of kinds a listener has no use for) in front of UDP.
+func scWithExtensions(p *scionPkt, hbh, e2e bool) []byte {
+	if !p.isUDP || p.hasE2E {
+		return nil
+	}
+	s, u := p.scn, p.udp
+	buffer := gopacket.NewSerializeBuffer()
+	opts := gopacket.SerializeOptions{ComputeChecksums: true, FixLengths: true}
+	if err := gopacket.Payload(append([]byte(nil), p.pld...)).SerializeTo(buffer, opts); err != nil {
+		return nil
+	}
+	u.SetNetworkLayerForChecksum(&s)
+	s.NextHdr = slayers.L4UDP
+	if err := u.SerializeTo(buffer, opts); err != nil {
+		return nil
+	}
+	if e2e {
+		e := slayers.EndToEndExtn{}
+		e.NextHdr = s.NextHdr
+		e.Options = append(e.Options, &slayers.EndToEndOption{OptType: 253, OptData: make([]byte, 16)})
+		if err := e.SerializeTo(buffer, opts); err != nil {
+			return nil
+		}
+		s.NextHdr = slayers.End2EndClass
+	}
+	if hbh {
+		h := slayers.HopByHopExtn{}
+		h.NextHdr = s.NextHdr
+		h.Options = append(h.Options, &slayers.HopByHopOption{OptType: 7, OptData: make([]byte, 6)})
+		if err := h.SerializeTo(buffer, opts); err != nil {
+			return nil
+		}
+		s.NextHdr = slayers.HopByHopClass
+	}
+	if err := s.SerializeTo(buffer, opts); err != nil {
+		return nil
+	}
+	return append([]byte(nil), buffer.Bytes()...)
+}
+
 func c05SCIONWorld(r *simcore.Run) any {
 	tp := r.Tape
 	useNTS := tp.Bool(1, 3, "nts")
